@@ -184,3 +184,60 @@ OUTSIDE = ["sklearn's BallTree/KDTree themselves (their documented query_radius 
 STUBS = ["SpecTree for BallTree/KDTree: arbitrary membership, order and distances",
          "numpy.random.shuffle -> arbitrary permutation", "split_units -> (symbolic length, unit string)"]
 ASSUMPTIONS = ["exact real arithmetic for radius and distances"]
+
+
+# ---- K3: the metric embedding ------------------------------------------------------------------------
+from symx import angle as AG                      # noqa: E402
+from symx.ratfun import Q, poly_eq, square       # noqa: E402
+import typhon.geodesy as GD                       # noqa: E402
+
+
+@harness("C06.metric", cases=lambda tier: ["minkowski", "haversine"], expect=lambda c: ["tree-coordinates-realise-the-metric"])
+def k_metric(ctx):
+    """minkowski: the squared Euclidean distance of the tree coordinates of two points is
+    R^2 |u1 - u2|^2 (u = unit vectors), i.e. the tree radius r [m] selects exactly the chords <= r;
+    haversine: the tree is fed (lat, lon) in radians, which is what sklearn's haversine metric expects."""
+    metric = ctx.case
+    if not ctx.sym:
+        import math
+        lat = [math.degrees(4 * math.atan(float(Fraction(ctx.values["tanhalf_lat%d" % i])))) for i in (1, 2)]
+        lon = [math.degrees(4 * math.atan(float(Fraction(ctx.values["tanhalf_lon%d" % i])))) for i in (1, 2)]
+        gi = G.GeoIndex.__new__(G.GeoIndex)
+        gi.metric = metric
+        pts = gi._to_metric(np.array(lat), np.array(lon))
+        if metric == "minkowski":
+            u = [(math.cos(math.radians(a)) * math.cos(math.radians(o)), math.cos(math.radians(a)) * math.sin(math.radians(o)),
+                  math.sin(math.radians(a))) for a, o in zip(lat, lon)]
+            d2 = sum((p - q) ** 2 for p, q in zip(pts[0], pts[1]))
+            want = float(earth_radius) ** 2 * sum((p - q) ** 2 for p, q in zip(u[0], u[1]))
+            ctx.check("tree-coordinates-realise-the-metric", ctx.close(d2, want, rel=1e-9, abs_=1e-3))
+        else:
+            ctx.check("tree-coordinates-realise-the-metric", np.allclose(pts, np.radians(np.column_stack([lat, lon]))))
+        return
+    lats = [AG.angle(ctx, "lat1"), AG.angle(ctx, "lat2")]
+    lons = [AG.angle(ctx, "lon1"), AG.angle(ctx, "lon2")]
+    lat = np.empty(2, dtype=object)
+    lon = np.empty(2, dtype=object)
+    lat[:], lon[:] = lats, lons
+    gi = G.GeoIndex.__new__(G.GeoIndex)
+    gi.metric = metric
+    with patched((GD, "np", make_np(AG.np_overrides())), (G, "np", make_np(AG.np_overrides()))):
+        pts = gi._to_metric(lat, lon)
+    ctx.check("shape", np.shape(pts) == ((2, 3) if metric == "minkowski" else (2, 2)))
+    if metric == "minkowski":
+        u = [(a.cos() * o.cos(), a.cos() * o.sin(), a.sin()) for a, o in zip(lats, lons)]
+        d2 = sum((Q.of(pts[0, k]) - Q.of(pts[1, k])) * (Q.of(pts[0, k]) - Q.of(pts[1, k])) for k in range(3))
+        R = Q.of(float(earth_radius))
+        want = R * R * sum((p - q) * (p - q) for p, q in zip(u[0], u[1]))
+        ctx.check("tree-coordinates-realise-the-metric", poly_eq(d2, want))
+    else:
+        ok = all(isinstance(pts[i, 0], AG.Ang) and pts[i, 0].unit == "rad" and pts[i, 0].coef == lats[i].coef
+                 and pts[i, 1].unit == "rad" and pts[i, 1].coef == lons[i].coef for i in range(2))
+        ctx.check("tree-coordinates-realise-the-metric", ok, detail=repr(pts))
+
+
+PLAN["quick"]["harnesses"].append("C06.metric")
+PLAN["thorough"]["harnesses"].append("C06.metric")
+BOUNDS["quick"]["metric embedding"] = "every pair of points (all latitudes / longitudes), both metrics"
+OUTSIDE[:] = [o for o in OUTSIDE if not o.startswith("the metric embedding")]
+STUBS.append("exact angle algebra (rational parametrisation of the circle) for _to_metric / geocentric2cart")
